@@ -7,6 +7,7 @@ implementation side asserts `type(amount) in (Decimal, Fraction)` on every
 result.
 -/
 import QuantityModel.Proofs.Quantity
+import QuantityModel.Proofs.Scale
 import Mathlib.Tactic.FieldSimp
 import Mathlib.Tactic.Ring
 namespace QM.Props.C01
@@ -90,5 +91,29 @@ theorem numeric_part_of_scaled_definition (k : ℚ) (hk : k ≠ 1) (b : Nat) :
     numElem (filterItems [(.num k, 1), (.atom b, 1)]) = some k := by
   have : (Elem.num k != Elem.num 1) = true := by simpa using hk
   simp [filterItems, numElem, this, rpow]
+
+/-! ### in every reachable registry the side conditions hold by themselves -/
+
+/-- no stored scale is zero in a state reached by well-formed declarations -/
+theorem reachable_scales_nonzero (hr : ReachableWF s.reg) {u v a b}
+    (h : Linear s.reg u v a b) : a ≠ 0 ∧ b ≠ 0 := by
+  have hS := reachableWF_scaleInv hr
+  constructor
+  · intro h0; subst h0; exact hS.nz u h.eu
+  · intro h0; subst h0; exact hS.nz v h.ev
+
+/-- there-and-back is the identity for ANY two units of a linear,
+unquantised type in ANY reachable registry -/
+theorem reachable_convert_round_trip (hr : ReachableWF s.reg) {q : Qty} {v a b}
+    (h : Linear s.reg q.unit v a b)
+    (hqv : s.reg.unitQuantum v = none) (hqu : s.reg.unitQuantum q.unit = none) :
+    (s.convert d q v).bind (fun q' => s.convert d q' q.unit) = .ok q :=
+  convert_round_trip h (reachable_scales_nonzero hr h).1 (reachable_scales_nonzero hr h).2 hqv hqu
+
+/-- converted == original, same generality -/
+theorem reachable_converted_equals_original (hr : ReachableWF s.reg) {q : Qty} {v a b}
+    (h : Linear s.reg q.unit v a b) :
+    s.qtyEq q ⟨a / b * q.amount, v⟩ = .ok true :=
+  converted_equals_original h (reachable_scales_nonzero hr h).1 (reachable_scales_nonzero hr h).2
 
 end QM.Props.C01
